@@ -58,7 +58,7 @@ def expected_calls(contexts):
                     if t not in MODULES[m]:
                         continue
                     out.append((sid, m, t, json.dumps(params or {}, sort_keys=True), _win(win)))
-    return sorted(out)
+    return sorted(out, key=repr)
 
 
 def _win(w):
@@ -75,7 +75,7 @@ def actual_calls(config):
     for c in config.calls:
         w = c.window
         out.append((c.stream_id, c.module, c.method, json.dumps(dict(c.kwargs), sort_keys=True), _win({"starting": w.starting, "ending": w.ending})))
-    return sorted(out)
+    return sorted(out, key=repr)
 
 
 class ConfigSpellings(Case):
